@@ -3,6 +3,7 @@ package main
 import (
 	"fmt"
 	"sort"
+	"strconv"
 	"strings"
 
 	"golang.org/x/tools/go/ssa"
@@ -13,6 +14,12 @@ import (
 //	callers <Func> == <Func>; <Func>; ...     the set of callers (in the analysed packages) of a function
 //	writers <Type.field> == <Func>; ...       the set of functions storing to a struct field
 //	exists <Func>                             the function still exists
+//	mapkey-writers <Type.field> "<key>" == <Func>; ...
+//	                                          the set of functions that update the map loaded from the field under that
+//	                                          constant key or under a key that is not a constant; every value stored under
+//	                                          the constant key has static type *ObjectType, or is the result of
+//	                                          (*ObjectType).Merge / DeepCopy on an *ObjectType receiver (or on the value
+//	                                          looked up under the same key), Merge with an *ObjectType argument
 //
 // <Func> is written like FuncName(): "(*T).m", "f", "f$1".
 func (c *Ctx) checkSideConditions(e *ReviewedEntry) string {
@@ -52,6 +59,35 @@ func (c *Ctx) checkSideConditions(e *ReviewedEntry) string {
 			}
 			if strings.Join(got, ";") != strings.Join(want, ";") {
 				return fmt.Sprintf("%s of %s are now {%s}, reviewed for {%s}", f[0], subject, strings.Join(got, "; "), strings.Join(want, "; "))
+			}
+		case "mapkey-writers":
+			parts := strings.SplitN(strings.TrimSpace(strings.TrimPrefix(sc, "mapkey-writers")), "==", 2)
+			if len(parts) != 2 {
+				return "malformed side condition: " + sc
+			}
+			lhs := strings.TrimSpace(parts[0])
+			sp := strings.IndexByte(lhs, ' ')
+			if sp < 0 {
+				return "malformed side condition: " + sc
+			}
+			field := lhs[:sp]
+			key, err := strconv.Unquote(strings.TrimSpace(lhs[sp:]))
+			if err != nil {
+				return "malformed side condition: " + sc
+			}
+			var want []string
+			for _, w := range strings.Split(parts[1], ";") {
+				if w = strings.TrimSpace(w); w != "" {
+					want = append(want, w)
+				}
+			}
+			sort.Strings(want)
+			got, bad := c.P.mapKeyWriters(field, key)
+			if bad != "" {
+				return bad
+			}
+			if strings.Join(got, ";") != strings.Join(want, ";") {
+				return fmt.Sprintf("writers of %s[%q] are now {%s}, reviewed for {%s}", field, key, strings.Join(got, "; "), strings.Join(want, "; "))
 			}
 		case "argtypes":
 			// argtypes <Func> <idx> == T1; T2 : dynamic types passed (via MakeInterface) at an argument position
@@ -150,4 +186,95 @@ func (p *Prog) fieldWriters(field string) []string {
 		})
 	}
 	return sortedKeys(set)
+}
+
+// mapKeyWriters lists the functions that update the map loaded from "Type.field" under the constant key or under a key
+// that is not a constant, and says which store under the constant key puts something there that is not known to be an
+// *ObjectType.
+func (p *Prog) mapKeyWriters(field, key string) (writers []string, bad string) {
+	set := map[string]bool{}
+	for _, fn := range p.Funcs {
+		eachInstr(fn, func(_ *ssa.BasicBlock, _ int, in ssa.Instruction) {
+			mu, ok := in.(*ssa.MapUpdate)
+			if !ok {
+				return
+			}
+			if f, _ := fieldLoad(mu.Map); f != field {
+				return
+			}
+			k, isConst := constString(mu.Key)
+			if isConst && k != key {
+				return
+			}
+			set[FuncName(fn)] = true
+			if isConst && bad == "" && !p.objectTypeValue(mu.Value, field, key, 0) {
+				bad = fmt.Sprintf("%s stores a value that is not known to be an *ObjectType (%s) into %s[%q] at %s", FuncName(fn), typeStr(unwrapIface(mu.Value).Type()), field, key, p.Pos(mu.Pos()))
+			}
+		})
+	}
+	return sortedKeys(set), bad
+}
+
+func unwrapIface(v ssa.Value) ssa.Value {
+	if mi, ok := v.(*ssa.MakeInterface); ok {
+		return mi.X
+	}
+	return v
+}
+
+// objectTypeValue: v has static type *ObjectType, or is Merge/DeepCopy of such a value (Merge with such an argument).
+func (p *Prog) objectTypeValue(v ssa.Value, field, key string, d int) bool {
+	if d > 4 {
+		return false
+	}
+	if typeStr(unwrapIface(v).Type()) == "*ObjectType" {
+		return true
+	}
+	switch x := v.(type) {
+	case *ssa.Phi:
+		for _, e := range x.Edges {
+			if !p.objectTypeValue(e, field, key, d+1) {
+				return false
+			}
+		}
+		return len(x.Edges) > 0
+	case *ssa.Call:
+		cc := &x.Call
+		name, args := "", cc.Args
+		if cc.IsInvoke() {
+			// the receiver is what the same key of the same map holds
+			lk, ok := cc.Value.(*ssa.Lookup)
+			if !ok {
+				return false
+			}
+			if f, _ := fieldLoad(lk.X); f != field {
+				return false
+			}
+			if k, ok := constString(lk.Index); !ok || k != key {
+				return false
+			}
+			name = cc.Method.Name()
+		} else {
+			g := staticCallee(cc)
+			if g == nil || len(args) == 0 {
+				return false
+			}
+			switch FuncName(g) {
+			case "(*ObjectType).Merge":
+				name = "Merge"
+			case "(*ObjectType).DeepCopy":
+				name = "DeepCopy"
+			default:
+				return false
+			}
+			args = args[1:]
+		}
+		switch name {
+		case "DeepCopy":
+			return true
+		case "Merge":
+			return len(args) == 1 && typeStr(unwrapIface(args[0]).Type()) == "*ObjectType"
+		}
+	}
+	return false
 }
